@@ -1092,6 +1092,42 @@ def casnodes(ctx, corr):
                                            'type': TY[tag][1], 'node': l[:300]})
                 return
 
+# ------------------------------------------------------------------------------------------------ source sites of `is_atomic`
+
+# (file, enclosing function) -> number of lines mentioning `is_atomic`.  Model/C16Qual.lean mirrors exactly these writers
+# (declspec) and readers (to_assign, new_inc_dec, struct_members); copy_type copies the whole struct.  A new reader or writer
+# anywhere in the compiler must be looked at before the model can be trusted again.
+ATOMIC_SITES = {('parse.c', 'declspec'): 4, ('parse.c', 'to_assign'): 2, ('parse.c', 'struct_members'): 1, ('parse.c', 'new_inc_dec'): 1,
+                ('chibicc.h', '<struct Type>'): 1, ('verif_dump.c', '<comment>'): 1, ('verif_dump.c', 'dump_type'): 1}
+
+def atomic_sites(ctx, corr):
+    found = {}
+    for fn in sorted(os.listdir(ctx.snapshot)):
+        if not (fn.endswith('.c') or fn.endswith('.h')) or not os.path.isfile(os.path.join(ctx.snapshot, fn)):
+            continue
+        lines = open(os.path.join(ctx.snapshot, fn), errors='replace').read().splitlines()
+        for i, l in enumerate(lines):
+            if 'is_atomic' not in l:
+                continue
+            where = '<top>'
+            if l.lstrip().startswith('//'):
+                where = '<comment>'
+            elif fn.endswith('.h'):
+                where = '<struct Type>'
+            else:
+                for j in range(i, -1, -1):
+                    m = re.match(r'^(?:static\s+)?[A-Za-z_][\w \*]*?\b(\w+)\([^;]*\)\s*\{\s*$', lines[j])
+                    if m and not lines[j].startswith((' ', '\t')):
+                        where = m.group(1)
+                        break
+            found[(fn, where)] = found.get((fn, where), 0) + 1
+    corr.evaluations += 1
+    corr.count('atomic-sites', sum(found.values()))
+    if found != ATOMIC_SITES:
+        diff = {f'{k[0]}:{k[1]}': (ATOMIC_SITES.get(k), found.get(k)) for k in set(found) | set(ATOMIC_SITES) if ATOMIC_SITES.get(k) != found.get(k)}
+        corr.disagreements.append({'kind': 'the set of source sites that read or write Type.is_atomic changed (expected, found); Model/C16Qual.lean must be reviewed',
+                                   'sites': diff})
+
 # ------------------------------------------------------------------------------------------------ leg 6: _Atomic propagation (declarations -> lvalue -> update path)
 
 QUAL_MSG = [
@@ -1294,7 +1330,7 @@ def correspond(ctx, corr):
                  'around the expected-value object (guard objects on both sides) must be untouched.  '
                  'non-trivial = distinct function/sequence pairs (tie), ND_CAS/ND_EXCH nodes, operand pairs of different sizes (typing), cases whose '
                  'lvalue is atomic in C (propagation), operand pairs without 0/1 (semantics), multi-thread phases (stress), forced-failure cases (ping-pong).')
-    for leg in (corpus, tie, casnodes, castypes, qualifier, opsem, pingpong, stress):
+    for leg in (corpus, atomic_sites, tie, casnodes, castypes, qualifier, opsem, pingpong, stress):
         leg(ctx, corr)
         if corr.violations:
             return      # one concrete failing input is enough; the remaining legs would only repeat it (or hang on it)
